@@ -45,12 +45,15 @@ func findMatches(insts []bytecode.SearchInstruction, all bool, skip int, take in
 			}
 		}
 
-		if currentState.status == SUCCESS && len(currentState.currentMatch) != 0 && matchNumber >= skip {
+		if currentState.status == SUCCESS && len(currentState.currentMatch) != 0 {
 			// fmt.Println("====== SUCCESS ======")
-			foundMatch := currentState.MakeMatch(matchNumber + 1)
-			matches.Push(foundMatch)
-			if last != 0 {
-				matches.Limit(last)
+			// a skipped match is not reported but the scan still resumes at its end
+			if matchNumber >= skip {
+				foundMatch := currentState.MakeMatch(matchNumber + 1)
+				matches.Push(foundMatch)
+				if last != 0 {
+					matches.Limit(last)
+				}
 			}
 			fileOffset = currentState.currentFileOffset
 			lineNumber = currentState.currentLineNum
@@ -58,9 +61,6 @@ func findMatches(insts []bytecode.SearchInstruction, all bool, skip int, take in
 			matchNumber += 1
 		} else {
 			// fmt.Println("====== FAILED  ======")
-			if currentState.status == SUCCESS && len(currentState.currentMatch) != 0 {
-				matchNumber += 1
-			}
 			skipC := reader.ReadAt(1, fileOffset)
 			if len(skipC) != 1 {
 				panic("WOW THAT IS NOT GOOD :(")
